@@ -244,7 +244,7 @@ class Shell:
         job = SimJob(w, vp, argv, kw)
         spec = w.job_spec(job.name)
         dur = w.job_duration(job.name, spec)
-        job.rc = int(spec.get("rc", 0)) if spec else 0
+        job.rc = w.job_rc(job.name, spec, job.env) if spec else 0
         job.finish_at = w.now + dur
         probe = None
         if w.real_probe:
